@@ -65,10 +65,10 @@ type kvElection struct {
 	promoteStarted chan struct{}
 	stopped        bool // a stop call has been made and Start has not been called since (guarded by mu)
 	stopping       int  // stop calls that have not returned yet (guarded by mu)
-	// windDown is closed when the background goroutines of the run that the latest stop
-	// call ended have all returned; a stop call that gives up waiting returns before that
-	// (guarded by mu)
-	windDown chan struct{}
+	// windingDown counts the stop calls' helper goroutines that are still in wg.Wait: the
+	// background goroutines of the run they ended have not all returned; a stop call that
+	// gives up waiting returns before that (guarded by mu)
+	windingDown int
 
 	// acquireSem (capacity 1) serializes the acquisition attempts of this instance
 	// (Start, retry rounds, takeover opportunities): overlapping attempts could each
@@ -222,13 +222,8 @@ func (e *kvElection) Start(ctx context.Context) error {
 	}
 	// A stop call gave up waiting and the goroutines of that run are still winding down
 	// (its wg.Wait has not returned): the WaitGroup must not be reused yet.
-	if e.windDown != nil {
-		select {
-		case <-e.windDown:
-			e.windDown = nil
-		default:
-			return ErrAlreadyStarted
-		}
+	if e.windingDown > 0 {
+		return ErrAlreadyStarted
 	}
 	// The previous run ended with its context and its leadership has not been given
 	// up yet (the step-down is under way): a new run must not inherit it.
@@ -845,10 +840,13 @@ func (e *kvElection) Stop() error {
 
 	done := make(chan struct{})
 	e.mu.Lock()
-	e.windDown = done
+	e.windingDown++
 	e.mu.Unlock()
 	go func() {
 		e.wg.Wait()
+		e.mu.Lock()
+		e.windingDown--
+		e.mu.Unlock()
 		close(done)
 	}()
 
@@ -943,10 +941,13 @@ func (e *kvElection) StopWithContext(ctx context.Context, opts StopOptions) erro
 
 	done := make(chan struct{})
 	e.mu.Lock()
-	e.windDown = done
+	e.windingDown++
 	e.mu.Unlock()
 	go func() {
 		e.wg.Wait()
+		e.mu.Lock()
+		e.windingDown--
+		e.mu.Unlock()
 		close(done)
 	}()
 
